@@ -1,4 +1,5 @@
 import DclabModel.Lemmas.Poly
+import DclabModel.Lemmas.PolyText
 import Mathlib.Algebra.Order.Field.Rat
 /-!
 # C15 — Polygon filters classify points by exact even-odd containment
@@ -145,6 +146,40 @@ theorem pip_insert_duplicate_vertex (l₁ l₂ : List (Pt K)) (v p : Pt K) :
   unfold pipSpec
   rw [e1, e2]
   simp [parity, crosses_degenerate]
+
+theorem replicate_append_cons {α : Type} (n : Nat) (v : α) (l : List α) :
+    List.replicate n v ++ v :: l = v :: (List.replicate n v ++ l) := by
+  induction n with
+  | zero => rfl
+  | succ m ih => rw [List.replicate_succ, List.cons_append, ih, List.cons_append]
+
+/-- 2e. Any number of extra copies of a vertex next to itself. -/
+theorem pip_insert_duplicates (l₁ l₂ : List (Pt K)) (v p : Pt K) (n : Nat) :
+    pip (l₁ ++ (List.replicate n v ++ v :: l₂)) p = pip (l₁ ++ v :: l₂) p := by
+  induction n with
+  | zero => rfl
+  | succ n ih =>
+    rw [List.replicate_succ, List.cons_append, replicate_append_cons,
+      pip_insert_duplicate_vertex, ← replicate_append_cons, ih]
+
+/-- 2f. **Removing adjacent repeats is benign** (for every polygon, any context `l₁`):
+zero-length edges never count. -/
+theorem pip_dedup_adjacent_ctx [DecidableEq K] (l : List (Pt K)) :
+    ∀ (l₁ : List (Pt K)) (p : Pt K), pip (l₁ ++ dedupAdj l) p = pip (l₁ ++ l) p := by
+  fun_induction dedupAdj l with
+  | case1 => intro l₁ p; rfl
+  | case2 v => intro l₁ p; rfl
+  | case3 v r ih =>
+    intro l₁ p
+    rw [ih l₁ p, pip_insert_duplicate_vertex]
+  | case4 v w r h ih =>
+    intro l₁ p
+    have := ih (l₁ ++ [v]) p
+    simpa [List.append_assoc] using this
+
+theorem pip_dedup_adjacent [DecidableEq K] (poly : List (Pt K)) (p : Pt K) :
+    pip (dedupAdj poly) p = pip poly p := by
+  simpa using pip_dedup_adjacent_ctx poly [] p
 
 /-- 3. **Inversion is the complement**, point by point. -/
 theorem inverted_is_complement (poly pts : List (Pt K)) :
@@ -350,6 +385,143 @@ theorem setUniqueId_spec (reg : Reg) (u : Nat) (hc : ∀ i ∈ reg.ids, i < reg.
     · have := hc i hi; omega
     · omega
 
+/-! ### The text layer of `.poly` files (`Model/PolyText.lean`) -/
+
+/-- 5d. **The text parser inverts the text printer and finds the sections**: for every list of
+structured lines whose names / axes have no surrounding blanks (they may contain `=`),
+`import_all` on the printed text – header search by `strip().startswith("[")`, `split("=", 1)`,
+`strip`, lower-cased keys, `strip("Polygon []")` – never raises and returns what the structured
+model returns, for every registry. -/
+theorem text_layer_refines (lower : String → String) (L : List Line) (hwf : ∀ l ∈ L, l.WF)
+    (reg : Reg) :
+    importAllT lower (L.map renderLine) reg = some (importAll lower L reg) := by
+  unfold importAllT importAll
+  rw [List.length_map]
+  exact importLoopT_render lower L hwf _ 0 reg []
+
+/-- 5e. **Text round trip**: `parse (print fs) = fs` for every list of filters with pairwise
+different identifiers, names/axes without surrounding blanks (`=` allowed), lower-case axes and
+a faithful number codec; the registry ends up with exactly the saved identifiers. -/
+theorem poly_text_roundtrip (fmt : Rat → Rat) (lower : String → String) (fs : List PF)
+    (hid : (fs.map (·.uid)).Nodup)
+    (hs : ∀ f ∈ fs, Stripped f.name ∧ Stripped f.xaxis ∧ Stripped f.yaxis)
+    (hfmt : ∀ f ∈ fs, ∀ q ∈ f.points, fmt q.x = q.x ∧ fmt q.y = q.y)
+    (hlow : ∀ f ∈ fs, lower f.xaxis = f.xaxis ∧ lower f.yaxis = f.yaxis) :
+    ∃ reg, importAllT lower (saveAllT fmt fs) {} = some (reg, fs) ∧ reg.ids = fs.map (·.uid) := by
+  refine ⟨(importAll lower (saveAll fmt fs) {}).1, ?_, (import_all_save_all fmt lower fs hid).2⟩
+  unfold saveAllT
+  rw [text_layer_refines lower _ (saveAll_wf fmt fs hs)]
+  exact congrArg some (Prod.ext rfl (roundtrip_exact fmt lower fs hid hfmt hlow))
+
+/-- 5f. **Per-section state does not leak**: an inverted filter followed by a plain one is read
+back as (inverted, plain) – `_load` starts every section from the constructor defaults. -/
+theorem inverted_does_not_leak (fmt : Rat → Rat) (lower : String → String) (f g : PF)
+    (rest : List PF) (hid : ((f :: g :: rest).map (·.uid)).Nodup)
+    (hs : ∀ f' ∈ f :: g :: rest, Stripped f'.name ∧ Stripped f'.xaxis ∧ Stripped f'.yaxis) :
+    ∃ reg out, importAllT lower (saveAllT fmt (f :: g :: rest)) {} = some (reg, out) ∧
+      (out.map (·.inverted)) = f.inverted :: g.inverted :: rest.map (·.inverted) := by
+  refine ⟨(importAll lower (saveAll fmt (f :: g :: rest)) {}).1,
+    (importAll lower (saveAll fmt (f :: g :: rest)) {}).2, ?_, ?_⟩
+  · unfold saveAllT
+    exact text_layer_refines lower _ (saveAll_wf fmt _ hs) {}
+  · rw [(import_all_save_all fmt lower _ hid).1]
+    simp [PF.through, Function.comp_def]
+
+/-- a name with `=` and inner blanks is `Stripped`; the concrete file round-trips -/
+example : Stripped "a=b c" := by unfold Stripped; decide
+example : importAllT id (saveAllT id
+    [{ uid := 3, xaxis := "area_um", yaxis := "deform", name := "a=b c", inverted := true,
+       points := [⟨0, 0⟩, ⟨1, 0⟩, ⟨1, 1⟩] },
+     { uid := 1, xaxis := "deform", yaxis := "area_um", name := "[x]", inverted := false,
+       points := [⟨0, 0⟩, ⟨2, 0⟩, ⟨1, 1/2⟩] }]) {}
+    = some ({ ids := [3, 1], counter := 4 },
+      [{ uid := 3, xaxis := "area_um", yaxis := "deform", name := "a=b c", inverted := true,
+         points := [⟨0, 0⟩, ⟨1, 0⟩, ⟨1, 1⟩] },
+       { uid := 1, xaxis := "deform", yaxis := "area_um", name := "[x]", inverted := false,
+         points := [⟨0, 0⟩, ⟨2, 0⟩, ⟨1, 1/2⟩] }]) := by decide +kernel
+/-- the hypothesis matters: surrounding blanks of a name are lost (normalisation on load) -/
+example : parseLineT (renderLine (.name " x ")) = some (.name "x") := by decide +kernel
+/-- a line without `=` and an unknown key make `_load` raise -/
+example : parseLineT (cs ['h', 'e', 'l', 'l', 'o']) = none := by decide +kernel
+example : parseLineT (cs ['C', 'o', 'l', 'o', 'r', ' ', '=', ' ', 'r']) = none := by decide +kernel
+
+/-! ### The instance registry: identifiers stay unique -/
+
+/-- registry invariant: identifiers pairwise different, counter above all of them -/
+def RegInv (reg : Reg) : Prop := reg.ids.Nodup ∧ ∀ i ∈ reg.ids, i < reg.counter
+
+theorem setUniqueId_inv (reg : Reg) (u : Nat) (h : RegInv reg) : RegInv (setUniqueId reg u).1 := by
+  obtain ⟨hn, hc⟩ := h
+  have hs := setUniqueId_spec reg u hc
+  refine ⟨?_, hs.2.2⟩
+  have hids : (setUniqueId reg u).1.ids = reg.ids ++ [(setUniqueId reg u).2] := rfl
+  rw [hids]
+  refine List.nodup_append.mpr ⟨hn, by simp, ?_⟩
+  intro a ha b hb
+  simp only [List.mem_singleton] at hb
+  subst hb
+  exact fun e => hs.1 (e ▸ ha)
+
+/-- `PolygonFilter(axes, points)` without `unique_id`: the counter is handed out and is free -/
+theorem auto_id_is_free (reg : Reg) (h : RegInv reg) :
+    (setUniqueId reg reg.counter).2 = reg.counter ∧ reg.counter ∉ reg.ids := by
+  have hfree : reg.counter ∉ reg.ids := fun hm => Nat.lt_irrefl _ (h.2 _ hm)
+  exact ⟨(setUniqueId_spec reg reg.counter h.2).2.1 hfree, hfree⟩
+
+theorem importLoop_inv (lower : String → String) (file : List Line) :
+    ∀ (fuel k : Nat) (reg : Reg) (acc : List PF), RegInv reg →
+      RegInv (importLoop lower file fuel k reg acc).1 ∧
+      ∃ new, (importLoop lower file fuel k reg acc).2 = acc ++ new ∧
+        (importLoop lower file fuel k reg acc).1.ids = reg.ids ++ new.map (·.uid) := by
+  intro fuel
+  induction fuel with
+  | zero => intro k reg acc h; exact ⟨h, [], by simp [importLoop], by simp [importLoop]⟩
+  | succ fuel ih =>
+    intro k reg acc h
+    unfold importLoop
+    cases hl : load lower file k reg with
+    | none => exact ⟨h, [], by simp, by simp⟩
+    | some rf =>
+      obtain ⟨r, f⟩ := rf
+      simp only
+      unfold load at hl
+      cases hs : nthSection file k with
+      | none => simp [hs] at hl
+      | some ub =>
+        simp only [hs, Option.some.injEq, Prod.mk.injEq] at hl
+        obtain ⟨hr, hf⟩ := hl
+        have hinv : RegInv r := hr ▸ setUniqueId_inv reg ub.1 h
+        have hrid : r.ids = reg.ids ++ [f.uid] := by rw [← hr, ← hf]; rfl
+        obtain ⟨i1, new, i2, i3⟩ := ih (k + 1) r (acc ++ [f]) hinv
+        refine ⟨i1, f :: new, ?_, ?_⟩
+        · rw [i2, List.append_assoc]; rfl
+        · rw [i3, hrid, List.append_assoc]; rfl
+
+/-- 5g. **Identifiers stay unique on import**: importing ANY file into ANY registry that
+satisfies the invariant leaves a registry that satisfies it (pairwise different ids, counter
+above all), and the registry grew by exactly the identifiers of the returned filters. -/
+theorem import_all_ids_unique (lower : String → String) (file : List Line) (reg : Reg)
+    (h : RegInv reg) :
+    RegInv (importAll lower file reg).1 ∧
+    (importAll lower file reg).1.ids = reg.ids ++ (importAll lower file reg).2.map (·.uid) := by
+  obtain ⟨h1, new, h2, h3⟩ := importLoop_inv lower file (file.length + 1) 0 reg [] h
+  refine ⟨h1, ?_⟩
+  unfold importAll
+  rw [h3, h2, List.nil_append]
+
+/-- the same for the text-level import (when it does not raise) -/
+theorem import_all_text_ids_unique (lower : String → String) (L : List Line)
+    (hwf : ∀ l ∈ L, l.WF) (reg : Reg) (h : RegInv reg) :
+    ∃ reg' out, importAllT lower (L.map renderLine) reg = some (reg', out) ∧ RegInv reg' ∧
+      reg'.ids = reg.ids ++ out.map (·.uid) :=
+  ⟨_, _, text_layer_refines lower L hwf reg, import_all_ids_unique lower L reg h⟩
+
+example : RegInv {} := ⟨List.nodup_nil, by simp⟩
+/-- a clash: id 3 is taken, counter 5 → the imported filter becomes 5, ids stay unique -/
+example : (importAll id (saveAll id
+    [{ uid := 3, xaxis := "a", yaxis := "b", name := "n", inverted := false, points := [] }])
+    { ids := [3, 4], counter := 5 }).1 = { ids := [3, 4, 5], counter := 6 } := by decide +kernel
+
 /-! ### F15: the old text format (`{:.15e}`, 16 significant digits) is not faithful -/
 
 /-- `nextafter(0.1, 1)` and `0.1` as exact binary64 values -/
@@ -381,6 +553,35 @@ theorem F15_witness_old_format_changes_classification :
 theorem F15_fixed_format_keeps_classification :
     (importAll id (saveAll (fmtDigits 17) [f15]) {}).2 = [f15] := by
   decide +kernel
+
+/-! ### Why de-duplication of vertices is not benign
+
+Two triangles that share the vertex `(0,0)`, drawn in one stroke: the vertex is visited twice,
+the visits are NOT adjacent.  Dropping the second visit joins `(2,2)` directly to `(-2,0)` and
+the point `(-1, 1/4)` – off both boundaries – changes from outside to inside. -/
+
+def twoTriangles : List (Pt Rat) := [⟨0, 0⟩, ⟨2, 0⟩, ⟨2, 2⟩, ⟨0, 0⟩, ⟨-2, 0⟩, ⟨-2, -2⟩]
+
+theorem dedup_nonadjacent_changes_classification :
+    dedupAll [] twoTriangles = [⟨0, 0⟩, ⟨2, 0⟩, ⟨2, 2⟩, ⟨-2, 0⟩, ⟨-2, -2⟩] ∧
+    dedupAdj twoTriangles = twoTriangles ∧
+    pip twoTriangles ⟨-1, 1/4⟩ = false ∧
+    pip (dedupAll [] twoTriangles) ⟨-1, 1/4⟩ = true := by
+  decide +kernel
+
+/-- hence no statement "`pip (dedupAll [] poly) = pip poly` for all polygons" holds -/
+theorem dedupAll_not_benign : ¬ ∀ (poly : List (Pt Rat)) (p : Pt Rat),
+    pip (dedupAll [] poly) p = pip poly p := by
+  intro h
+  have := h twoTriangles ⟨-1, 1/4⟩
+  revert this
+  decide +kernel
+
+/-- `dedupAdj` does something: a run of three copies and a repeated closing vertex collapse -/
+example : dedupAdj [(⟨0, 0⟩ : Pt Rat), ⟨0, 0⟩, ⟨0, 0⟩, ⟨2, 0⟩, ⟨2, 2⟩, ⟨2, 2⟩]
+    = [⟨0, 0⟩, ⟨2, 0⟩, ⟨2, 2⟩] := by decide +kernel
+example (poly : List (Pt Rat)) (p : Pt Rat) : pip (dedupAdj poly) p = pip poly p :=
+  pip_dedup_adjacent poly p
 
 /-! ## Non-vacuity and instantiation at the executable model (`K = Rat`) -/
 
